@@ -8,8 +8,15 @@ Proof. apply nth_upd_eq. Qed.
 Lemma getth_upd_ne l t u x : u <> t -> nth u (upd l t x) dth = nth u l dth.
 Proof. apply nth_upd_ne. Qed.
 
+(* the other thread an action changes, if any *)
+Definition second (a : act) : option nat :=
+  match a with ASpawn c _ | ALend c | AJoinB c => Some c | _ => None end.
+
 Definition same_local (x x' : th) : Prop :=
   refs x' = refs x /\ excl x' = excl x /\ mustfree x' = mustfree x /\ pend x' = pend x /\ cle (clk x) (clk x').
+
+Definition same_local_but_excl (x x' : th) : Prop :=
+  refs x' = refs x /\ excl x' = false /\ mustfree x' = mustfree x /\ pend x' = pend x /\ cle (clk x) (clk x').
 
 Definition act_spec (s : st) (t : nat) (a : act) (s' : st) : Prop :=
   let x := getth s t in let x' := getth s' t in
@@ -28,11 +35,14 @@ Definition act_spec (s : st) (t : nat) (a : act) (s' : st) : Prop :=
                   /\ refs x' = refs x - k /\ excl x' = false /\ mustfree x' = mustfree x /\ pend x' = pend x
                   /\ cle (clk x) (clk x')
                   /\ refs (getth s' c) = k /\ excl (getth s' c) = false /\ mustfree (getth s' c) = false
-                  /\ pend (getth s' c) = [] /\ started (getth s' c) = true
+                  /\ pend (getth s' c) = [] /\ started (getth s' c) = true /\ lend (getth s' c) = 0
   | AJoin c => same_local x x'
   | AFence => refs x' = refs x /\ excl x' = excl x /\ mustfree x' = mustfree x /\ pend x' = pend x
               /\ cle (clk x) (clk x') /\ cle (pend x) (clk x')
   | AReadM => mustfree x = true /\ same_local x x'
+  | ALend c => same_local_but_excl x x'
+  | AReadB => same_local x x'
+  | AJoinB c => same_local x x'
   end.
 
 Ltac sl := unfold same_local; cbn [refs excl mustfree pend clk started]; repeat split; auto; try (apply cle_tick); try lia.
@@ -40,7 +50,8 @@ Ltac sl := unfold same_local; cbn [refs excl mustfree pend clk started]; repeat 
 Lemma step_spec s t a s' : step s t a = Ok s' ->
   t < length (ths s) /\ started (getth s t) = true /\ started (getth s' t) = true
   /\ length (ths s') = length (ths s)
-  /\ (forall u, u <> t -> (forall c k, a = ASpawn c k -> u <> c) -> getth s' u = getth s u)
+  /\ (forall u, u <> t -> second a <> Some u -> getth s' u = getth s u)
+  /\ lend (getth s' t) = lend (getth s t)
   /\ act_spec s t a s'.
 Proof.
   intros H. unfold step in H.
@@ -53,62 +64,68 @@ Proof.
     destruct (live s); cbn [negb] in H; [|discriminate].
     destruct (cleb _ _); cbn [negb] in H; [|discriminate]. injection H as <-. unfold getth; cbn [ths].
     rewrite getth_upd_eq by exact Ht. split; [reflexivity|]. split; [apply upd_length|].
-    split; [intros u Hu _; apply getth_upd_ne; exact Hu|]. split; [exact Hr|]. sl.
+    split; [intros u Hu _; apply getth_upd_ne; exact Hu|]. split; [reflexivity|]. split; [exact Hr|]. sl.
   - (* write *)
-    destruct (excl (getth s t)) eqn:He; cbn [negb] in H; [|discriminate].
+    destruct (excl (getth s t)) eqn:He; cbn [negb orb] in H; [|discriminate].
+    destruct (lends_from s t); [discriminate|].
     destruct (live s); cbn [negb] in H; [|discriminate].
     destruct (_ && _); cbn [negb] in H; [|discriminate]. injection H as <-. unfold getth; cbn [ths].
     rewrite getth_upd_eq by exact Ht. split; [reflexivity|]. split; [apply upd_length|].
-    split; [intros u Hu _; apply getth_upd_ne; exact Hu|]. split; [reflexivity|]. sl.
+    split; [intros u Hu _; apply getth_upd_ne; exact Hu|]. split; [reflexivity|]. split; [reflexivity|]. sl.
   - (* clone *)
     destruct (Nat.ltb_spec 0 (refs (getth s t))) as [Hr|Hr]; cbn [negb] in H; [|discriminate].
     destruct (live s); cbn [negb] in H; [|discriminate]. injection H as <-. unfold getth; cbn [ths].
     rewrite getth_upd_eq by exact Ht. split; [reflexivity|]. split; [apply upd_length|].
-    split; [intros u Hu _; apply getth_upd_ne; exact Hu|]. cbn [refs excl mustfree]. auto.
+    split; [intros u Hu _; apply getth_upd_ne; exact Hu|]. split; [reflexivity|]. cbn [refs excl mustfree]. auto.
   - (* release *)
     destruct (Nat.ltb_spec 0 (refs (getth s t))) as [Hr|Hr]; cbn [negb orb] in H; [|discriminate].
-    destruct (mustfree (getth s t)) eqn:Hm; [discriminate|].
+    destruct (mustfree (getth s t)) eqn:Hm; [discriminate|]. cbn [orb] in H.
+    destruct (lends_from s t); [discriminate|].
     destruct (live s); cbn [negb] in H; [|discriminate]. injection H as <-. unfold getth; cbn [ths].
     rewrite getth_upd_eq by exact Ht. split; [reflexivity|]. split; [apply upd_length|].
-    split; [intros u Hu _; apply getth_upd_ne; exact Hu|]. cbn [refs excl mustfree]. auto.
+    split; [intros u Hu _; apply getth_upd_ne; exact Hu|]. split; [reflexivity|]. cbn [refs excl mustfree]. auto.
   - (* free *)
     destruct (mustfree (getth s t)) eqn:Hm; cbn [negb andb] in H; [|discriminate].
     destruct (cleb (pend (getth s t)) (clk (getth s t))); cbn [negb] in H; [|discriminate].
     destruct (live s); cbn [negb] in H; [|discriminate].
     destruct (_ && _); cbn [negb] in H; [|discriminate]. injection H as <-. unfold getth; cbn [ths].
     rewrite getth_upd_eq by exact Ht. split; [reflexivity|]. split; [apply upd_length|].
-    split; [intros u Hu _; apply getth_upd_ne; exact Hu|]. cbn [refs excl mustfree pend clk].
+    split; [intros u Hu _; apply getth_upd_ne; exact Hu|]. split; [reflexivity|]. cbn [refs excl mustfree pend clk].
     repeat split; auto. eapply cle_trans; [apply cle_join_l|apply cle_tick].
   - (* probe *)
-    destruct (Nat.ltb_spec 0 (refs (getth s t))) as [Hr|Hr]; cbn [negb] in H; [|discriminate].
+    destruct (Nat.ltb_spec 0 (refs (getth s t))) as [Hr|Hr]; cbn [negb orb] in H; [|discriminate].
+    destruct (lends_from s t); [discriminate|].
     destruct (live s); cbn [negb] in H; [|discriminate].
     destruct (nth_error (msgs s) p) as [m|] eqn:Hm; [|discriminate].
     destruct (forallb _ _); cbn [negb] in H; [|discriminate]. injection H as <-. unfold with_th, getth; cbn [ths].
     rewrite getth_upd_eq by exact Ht. split; [reflexivity|]. split; [apply upd_length|].
-    split; [intros u Hu _; apply getth_upd_ne; exact Hu|]. split; [exact Hr|]. exists m. cbn [refs excl mustfree pend clk].
+    split; [intros u Hu _; apply getth_upd_ne; exact Hu|]. split; [reflexivity|]. split; [exact Hr|]. exists m. cbn [refs excl mustfree pend clk].
     repeat split; auto. eapply cle_trans; [apply cle_join_l|apply cle_tick].
   - (* spawn *)
     destruct (Nat.eqb_spec c t) as [Hct|Hct]; cbn [orb] in H; [discriminate|].
     destruct (Nat.ltb_spec c (length (ths s))) as [Hc|Hc]; cbn [negb orb] in H; [|discriminate].
     destruct (started (getth s c)) eqn:Hsc; cbn [orb] in H; [discriminate|].
-    destruct (Nat.leb_spec k (refs (getth s t))) as [Hk|Hk]; cbn [negb] in H; [|discriminate].
+    destruct (Nat.leb_spec k (refs (getth s t))) as [Hk|Hk]; cbn [negb orb] in H; [|discriminate].
+    destruct (lends_from s t); [discriminate|].
     injection H as <-. unfold with_th, getth; cbn [ths].
     rewrite (getth_upd_ne _ c t) by auto. rewrite getth_upd_eq by exact Ht.
     rewrite getth_upd_eq by (rewrite upd_length; exact Hc).
     split; [reflexivity|]. split; [rewrite !upd_length; reflexivity|].
     split.
-    { intros u Hu Hc'. specialize (Hc' c k eq_refl). rewrite getth_upd_ne by exact Hc'. apply getth_upd_ne; exact Hu. }
+    { intros u Hu Hc'. assert (Huc : u <> c) by (intros ->; apply Hc'; reflexivity).
+      rewrite getth_upd_ne by exact Huc. apply getth_upd_ne; exact Hu. }
+    split; [reflexivity|].
     cbn [refs excl mustfree pend clk started]. fold (getth s t) (getth s c).
     repeat split; auto. apply cle_tick.
   - (* join *)
     destruct (_ || _ || _ || _); [discriminate|]. injection H as <-. unfold with_th, getth; cbn [ths].
     rewrite getth_upd_eq by exact Ht. split; [reflexivity|]. split; [apply upd_length|].
-    split; [intros u Hu _; apply getth_upd_ne; exact Hu|]. sl.
+    split; [intros u Hu _; apply getth_upd_ne; exact Hu|]. split; [reflexivity|]. sl.
     eapply cle_trans; [apply cle_join_l|apply cle_tick].
   - (* fence *)
     injection H as <-. unfold with_th, getth; cbn [ths].
     rewrite getth_upd_eq by exact Ht. split; [reflexivity|]. split; [apply upd_length|].
-    split; [intros u Hu _; apply getth_upd_ne; exact Hu|]. cbn [refs excl mustfree pend clk].
+    split; [intros u Hu _; apply getth_upd_ne; exact Hu|]. split; [reflexivity|]. cbn [refs excl mustfree pend clk].
     repeat split; auto; [apply cle_join_l|apply cle_join_r].
   - (* read by the freeing thread *)
     destruct (mustfree (getth s t)) eqn:Hm; cbn [negb andb] in H; [|discriminate].
@@ -116,5 +133,37 @@ Proof.
     destruct (live s); cbn [negb] in H; [|discriminate].
     destruct (cleb _ _); cbn [negb] in H; [|discriminate]. injection H as <-. unfold getth; cbn [ths].
     rewrite getth_upd_eq by exact Ht. split; [reflexivity|]. split; [apply upd_length|].
+    split; [intros u Hu _; apply getth_upd_ne; exact Hu|]. split; [reflexivity|]. split; [reflexivity|]. sl.
+  - (* lend *)
+    destruct (Nat.eqb_spec c t) as [Hct|Hct]; cbn [orb] in H; [discriminate|].
+    destruct (Nat.ltb_spec c (length (ths s))) as [Hc|Hc]; cbn [negb orb] in H; [|discriminate].
+    destruct (started (getth s c)); cbn [orb] in H; [discriminate|].
+    destruct (negb (Nat.ltb 0 (refs (getth s t)))); cbn [orb] in H; [discriminate|].
+    destruct (Nat.eqb_spec (lend (getth s t)) 0) as [Hl0|Hl0]; cbn [negb] in H; [|discriminate].
+    injection H as <-. unfold with_th, getth; cbn [ths].
+    rewrite (getth_upd_ne _ c t) by auto. rewrite getth_upd_eq by exact Ht.
+    split; [reflexivity|]. split; [rewrite !upd_length; reflexivity|].
+    split.
+    { intros u Hu Hc'. assert (Huc : u <> c) by (intros ->; apply Hc'; reflexivity).
+      rewrite getth_upd_ne by exact Huc. apply getth_upd_ne; exact Hu. }
+    split; [cbn [lend]; unfold getth in Hl0; rewrite Hl0; reflexivity|].
+    unfold same_local_but_excl. cbn [refs excl mustfree pend clk]. repeat split; auto. apply cle_tick.
+  - (* read through a borrowed handle *)
+    destruct (Nat.eqb (lend (getth s t)) 0); [discriminate|].
+    destruct (live s); cbn [negb] in H; [|discriminate].
+    destruct (cleb _ _); cbn [negb] in H; [|discriminate]. injection H as <-. unfold getth; cbn [ths].
+    rewrite getth_upd_eq by exact Ht. split; [reflexivity|]. split; [apply upd_length|].
     split; [intros u Hu _; apply getth_upd_ne; exact Hu|]. split; [reflexivity|]. sl.
+  - (* join a borrower *)
+    destruct (Nat.eqb_spec c t) as [Hct|Hct]; cbn [orb] in H; [discriminate|].
+    destruct (Nat.ltb_spec c (length (ths s))) as [Hc|Hc]; cbn [negb orb] in H; [|discriminate].
+    destruct (_ || _ || _) eqn:Hg; [discriminate|].
+    injection H as <-. unfold with_th, getth; cbn [ths].
+    rewrite (getth_upd_ne _ c t) by auto. rewrite getth_upd_eq by exact Ht.
+    split; [reflexivity|]. split; [rewrite !upd_length; reflexivity|].
+    split.
+    { intros u Hu Hc'. assert (Huc : u <> c) by (intros ->; apply Hc'; reflexivity).
+      rewrite getth_upd_ne by exact Huc. apply getth_upd_ne; exact Hu. }
+    split; [reflexivity|].
+    sl. eapply cle_trans; [apply cle_join_l|apply cle_tick].
 Qed.
